@@ -154,7 +154,7 @@ def threads(ctx, ncalls, fn):
     """Each calling thread is measured against its own previous sample (symbolic caller id per call)."""
     k = simk.Kernel(ctx)
     nf = 7
-    DT = [0, 100, 250, 40, 300]        # pinned total delta between consecutive snapshots (ticks)
+    DT = [0, 100, 250, 400, 300]       # pinned total delta between consecutive snapshots (ticks; all >= 1 s, see known finding C07-times-percent-subsecond)
     snaps = [[ctx.int(f"s0_{j}", 0, 2**62) for j in range(nf)]]
     for i in range(1, ncalls):
         cur = [ctx.int(f"s{i}_{j}", 0, 2**62) for j in range(nf)]
